@@ -16,6 +16,9 @@ func propC18(c *Ctx, r *Report) {
 	r.floor("siblings.dxil/internal/emit", 1)
 	r.Clauses = append(r.Clauses, enumMapClause+" - here: the semantic names and kinds of the signature / PSV parts, the program kind of the header and the component types of signature elements")
 	c.runEnumTables(r, "dxil")
+	r.Clauses = append(r.Clauses, "numeric tables (E1): every constant of the DXIL backend that library code references and that is written into the container or the bitstream - dx.op opcodes, LLVM 3.7 block ids and MODULE/TYPE/CST/FUNC/METADATA/VST/PARAMATTR record codes, attribute kinds, binary / cast / compare / atomicrmw opcodes, DXIL atomic, barrier, wave and quad operation codes, shader kinds, PSV resource types and kinds, signature component types and system-value semantics - has the value the DXIL / LLVM 3.7 / DXBC specifications assign (reference tables written from the specifications)")
+	c.runDXILTables(r, "tables.dxil")
+	r.floor("tables.dxil", 200)
 	r.Clauses = append(r.Clauses, roundUpClause+" - here: part sizes, string-table alignment and the dword counts of the PSV dependency tables")
 	c.runRoundUp(r, "arith.roundup", inPkgs("dxil"), "arith.roundup")
 	r.floor("arith.roundup", 8)
